@@ -29,12 +29,19 @@ def e2e(case):
     dt_h = float(F(case["dt"]))
     injected = {(f[1], float(k) * dt_h) for k, fl in case["faults"].items() for f in fl if f[0] == "trafo"}
 
-    def known_suffix(bus, t):
-        # the recorded finding: a transformer fault injected through the callback at this very bus (and, for the
-        # per-increment bound, in this very increment) sheds the stale load of the previous increment as well
+    consumed = set()
+
+    def known_suffix(bus, t, consume=False):
+        # the recorded finding: a transformer fault injected through the callback at this very bus sheds the stale
+        # load of the previous increment at injection time; that entry is logged with the first increment that is
+        # logged at or after the injection (the injection increment itself unless the fault is repaired before
+        # anything is logged) - and only there (and, for the cumulative bound, at this bus)
         if t is None:
             return ":trafo-callback" if any(b == bus for b, _ in injected) else ""
-        return ":trafo-callback" if (bus, t) in injected else ""
+        hit = [(b, ti) for b, ti in injected if b == bus and ti <= t + 1e-12 and (b, ti) not in consumed]
+        if consume:
+            consumed.update(hit)
+        return ":trafo-callback" if hit else ""
 
     def observe(ps, phase, info):
         if phase == "after_set_load":
@@ -56,6 +63,7 @@ def e2e(case):
                 qs = b.q_energy_shed_stack
                 if qs < -1e-12 or qs > (q0 + max(0.0, b.qload - (0 if b.trafo_failed else q0)) + ALPHA) * dt + 1e-12:
                     viols.append(("e2e.qstack-bound" + known_suffix(b.name, info["curr"].get_hours()), f"{b.name} at t={info['curr'].get_hours()}: reactive energy not supplied {qs} exceeds demand"))
+                known_suffix(b.name, info["curr"].get_hours(), consume=True)
             if any(v > 0 for v in st["stacks"].values()):
                 st["shed_incs"] += 1
         elif phase == "after_log":
